@@ -257,3 +257,15 @@ proof fn lemma_filter_map_prefix_idx(res: spec_fn(int) -> Option<usize>, n: int)
         }
     }
 }
+
+proof fn lemma_filter_map_prefix_empty<R>(res: spec_fn(int) -> Option<R>, n: int)
+    ensures (filter_map_prefix(res, n).len() == 0) <==> (forall|i: int| 0 <= i < n ==> (#[trigger] res(i)) is None)
+    decreases n
+{
+    if n > 0 {
+        lemma_filter_map_prefix_empty(res, n - 1);
+        if forall|i: int| 0 <= i < n ==> (#[trigger] res(i)) is None {
+            assert(res(n - 1) is None);
+        }
+    }
+}
